@@ -558,6 +558,94 @@ SEEDS: list[tuple[str, ...]] = [
 ]
 
 
+def failing_callback_runs(res: Result, only: str | None = None) -> int:
+    """An application callback that raises while a message is delivered (the exception takes the transport down): the session is over,
+    so the stop callback fires, waiting requests fail with a connection error, commands are refused and a fresh connect() completes."""
+    from aioesphomeapi.core import APIConnectionError
+
+    from ..world import ConnWorld, mk
+
+    n = 0
+    for noise in (False, True):
+        for exc_name in ("ValueError", "StopIteration", "KeyError", "OSError", "TimeoutError"):
+            for pending in (False, True):
+                key = f"failing-callback:{'noise' if noise else 'plain'}:{exc_name}:{'request-pending' if pending else 'idle'}"
+                if only is not None and key != only:
+                    continue
+                exc_cls = {"ValueError": ValueError, "StopIteration": StopIteration, "KeyError": KeyError, "OSError": OSError, "TimeoutError": TimeoutError}[exc_name]
+                w = ConnWorld(client=True, noise=noise, keepalive=1e6, login=True)
+                stops: list[bool] = []
+                try:
+                    async def on_stop(expected: bool, _s: list[bool] = stops) -> None:
+                        _s.append(bool(expected))
+
+                    def connect(tag: str) -> None:
+                        w.spawn(tag, lambda: w.client.connect(on_stop=on_stop, login=True))
+                        w.drain()
+                        if w.outcome(tag) is not None:
+                            return
+                        sock = w.net.sockets[-1]
+                        w.io_connect(sock, 0)
+                        w.drain()
+                        if noise:
+                            w._fed = 0
+                            w.io_chunk(sock, w.noise_handshake_bytes())
+                            w.drain()
+                        w.io_chunk(sock, w.dframe(w.hello_resp()))
+                        w.drain()
+                        w.io_chunk(sock, w.dframe(w.connect_resp()))
+                        w.drain()
+
+                    connect("connect1")
+                    if w.outcome("connect1") != "ok":
+                        raise HarnessError(f"failing-callback: connect failed {w.results}")
+                    sock = w.sock
+
+                    def cb(state: Any) -> None:
+                        raise exc_cls("application callback failed")
+
+                    w.client.subscribe_states(cb)
+                    if pending:
+                        w.spawn("req", lambda: w.client.device_info())
+                    w.drain()
+                    w.io_chunk(sock, w.dframe(mk("SensorStateResponse", key=1, state=1.0)))
+                    w.drain()
+                    w.run_timers(w.loop.time() + 1.0)
+                    n += 1
+                    d = {"harness": "c19-failing-callback", "key": key}
+                    if stops != [False]:
+                        res.add(key, f"C19:wedged:a state callback raised {exc_name}; the transport is gone but the stop callback calls are {stops} (expected [False])", d)
+                        continue
+                    if pending:
+                        r = w.results.get("req")
+                        if r is None:
+                            res.add(key, "C19:wedged:the request that was waiting when the session died is still waiting", d)
+                            continue
+                        if r[0] != "exc" or not isinstance(r[1], APIConnectionError):
+                            res.add(key, f"C19:wrong-error:the waiting request ended {w.outcome('req')}, expected a connection error", d)
+                            continue
+                    try:
+                        w.client.switch_command(1, True)
+                        res.add(key, "C19:work-accepted:a command was accepted after the session had died", d)
+                        continue
+                    except APIConnectionError:
+                        pass
+                    except Exception as e:  # noqa: BLE001
+                        res.add(key, f"C19:wrong-error:command after the session died raised {type(e).__name__}", d)
+                        continue
+                    if noise:
+                        from .. import noise_ref
+                        from ..world import seed_bytes
+
+                        w.ndev = noise_ref.NoiseDevice(w.psk, seed_bytes("eph2"), name=w.device_name)
+                    connect("connect2")
+                    if w.outcome("connect2") != "ok":
+                        res.add(key, f"C19:wedged:a fresh connect() after the session died ended {w.outcome('connect2')}: {w.results.get('connect2')}", d)
+                finally:
+                    w.close()
+    return n
+
+
 def silent_device_runs(res: Result, only: str | None = None) -> int:
     """A device that dies without a word (the TCP connection stays open, no more bytes): after the keepalive has given up, the client must
     refuse work with a connection error and must accept - and complete - a fresh connect.  Histories with 0-3 answered pings before."""
@@ -669,6 +757,7 @@ def run(tier: str, seed: int) -> Result:
         total.merge(st)
     sweep = surface_sweep(res)
     sweep["silent_device_histories"] = silent_device_runs(res)
+    sweep["failing_callback_histories"] = failing_callback_runs(res)
     if sweep["surface_methods"] < 40:
         raise HarnessError(f"vacuous surface sweep: {sweep}")
     need = {"session", "refused", "accepted", "work-refused", "work-accepted", "start-failed", "finish-failed"}
@@ -701,6 +790,11 @@ def run(tier: str, seed: int) -> Result:
 
 def replay(rp: dict[str, Any]) -> bool:
     d = rp["detail"]
+    if d.get("harness") == "c19-failing-callback":
+        res = Result("C19", "model_checking")
+        failing_callback_runs(res, only=d["key"])
+        print(d["key"], "->", [v.clause for v in res.violations] or "holds")
+        return not res.violations
     if d.get("harness") == "c19-silent":
         res = Result("C19", "model_checking")
         silent_device_runs(res, only=d["key"])
